@@ -165,6 +165,11 @@ def check(run):
     run.gap_case("product-out", "too-small-out", "too-small-out", {"stdout": pr.stdout.strip(), "rc": pr.returncode})
     if pr.returncode != 0 or "RAISED" not in pr.stdout:
         run.violation("product-out-too-small-not-rejected", "f *= g (product larger than f)", {"ell_max_f": 1, "ell_max_g": 2, "returncode": pr.returncode}, "raise without writing past the end of f", (pr.stdout + pr.stderr)[-300:])
+    from .. import layouts
+    g_ = {s_: helpers.make_modes(run.rng, s_, 2, (3,)) for s_ in (-1, 0, 2)}
+    layouts.sweep_modes(run, "multiply", [("f*g", lambda f: f * g_[0]), ("g*f", lambda f: g_[2] * f), ("f.multiply(g,truncator=max)", lambda f: f.multiply(g_[-1], truncator=max)),
+                                          ("np.multiply(f,g)", lambda f: np.multiply(f, g_[-1])), ("2.5*f", lambda f: 2.5 * f), ("f/4", lambda f: f / 4), ("f*f", lambda f: f * f)],
+                        [-2, 0, 1] if quick else range(-3, 4))
     run.assumptions += ["the Clebsch-Gordan series (product of the functions) is checked by evaluation on rotors only; truncation = cut is bitwise"]
 
 
